@@ -8,7 +8,9 @@ import (
 	"context"
 	"encoding/json"
 	"fmt"
+	"google.golang.org/protobuf/encoding/protowire"
 	"io"
+	"math"
 	"sort"
 	"strings"
 	"testing/iotest"
@@ -102,6 +104,14 @@ func openFile(st *Store, c cid.Cid, opener string) (datamodel.Node, error) {
 		return unixfsnode.Reify(ipld.LinkContext{Ctx: context.Background()}, n, ls)
 	case "preload":
 		return ls.KnownReifiers["unixfs-preload"](ipld.LinkContext{Ctx: context.Background()}, n, ls)
+	case "nodereifier":
+		// the link system reifies everything it loads (LinkSystem.NodeReifier), children of the file included
+		ls.NodeReifier = unixfsnode.Reify
+		var proto datamodel.NodePrototype = basicnode.Prototype.Any
+		if c.Prefix().Codec == cid.DagProtobuf {
+			proto = dagpb.Type.PBNode
+		}
+		return ls.Load(ipld.LinkContext{Ctx: context.Background()}, cidlink.Link{Cid: c}, proto)
 	}
 	return nil, fmt.Errorf("unknown opener")
 }
@@ -236,8 +246,9 @@ func runFileInput(rep *Report, in FileInput, cfB, cfR *CaseFile) {
 		runBuildCase(rep, in, cfB, fail)
 		return
 	}
-	if handUnreadable[in.Hand] {
-		// a root whose links cannot be measured: no content to compare with, the replies are compared with the model only
+	if handUnreadable[in.Hand] || (strings.HasPrefix(in.Hand, "nosizes-") && in.Mode == "faults") {
+		// a root whose links cannot be measured: no content to compare with, the replies are compared with the model only.
+		// Unsized children under unavailable blocks: the oracles are noSizesFaultReads', the replies go to the model
 		fail = func(prop, sig, what string, exp, got interface{}) {}
 	}
 	fc, err := makeFile(in)
@@ -314,6 +325,7 @@ func runFileInput(rep *Report, in FileInput, cfB, cfR *CaseFile) {
 	// spans for C05 / C12
 	var sp [][2]int
 	spans(fc.dag, 0, &sp)
+	emptyBad := false
 	firstBad := -1 // content position where the first unavailable block starts
 	var badKind uint64
 	if len(in.Faults) > 0 {
@@ -326,6 +338,11 @@ func runFileInput(rep *Report, in FileInput, cfB, cfR *CaseFile) {
 				if sp[i][1] > sp[i][0] && (firstBad == -1 || sp[i][0] < firstBad) {
 					firstBad = sp[i][0]
 					badKind = k
+				}
+				if sp[i][1] == sp[i][0] {
+					// an empty block lying behind the reader's position is requested all the same (only empty blocks at
+					// the position itself are stepped over): where the error falls is left to the model comparison
+					emptyBad = true
 				}
 			}
 		}
@@ -352,7 +369,9 @@ func runFileInput(rep *Report, in FileInput, cfB, cfR *CaseFile) {
 				got, err = r.Seek(op.Off, op.Whence)
 				return err
 			})
-			pending = append(pending, fc.st.Reads...)
+			if !strings.HasPrefix(in.Hand, "nosizes-") { // measuring done by Seek(…, SeekEnd) over unsized children is not modelled as requests
+				pending = append(pending, fc.st.Reads...)
+			}
 			opTerms = append(opTerms, fmt.Sprintf("(%d, OpSeek %s %d)", op.Reader, coqZ(op.Off), op.Whence))
 			obsTerms = append(obsTerms, "(BSeek "+coqRes(o, coqZ(got))+")")
 			// oracle
@@ -422,12 +441,16 @@ func runFileInput(rep *Report, in FileInput, cfB, cfR *CaseFile) {
 					}
 					for _, c := range fc.st.Reads {
 						if !allowed[c.KeyString()] {
-							fail("C05", "extra-block", "a block whose byte span does not meet the requested range was fetched", fmt.Sprintf("range [%d,%d)", a, b), fc.index[c.KeyString()])
+							sig := "extra-block"
+							if strings.HasPrefix(in.Hand, "nosizes-") {
+								sig = "nosizes-extra-block" // children without a declared size are all opened to be measured
+							}
+							fail("C05", sig, "a block whose byte span does not meet the requested range was fetched", fmt.Sprintf("range [%d,%d)", a, b), fc.index[c.KeyString()])
 							break
 						}
 					}
 				}
-			} else if in.Mode == "faults" {
+			} else if in.Mode == "faults" && !emptyBad {
 				// C12: exact prefix before the first unavailable block, then its error, never EOF
 				if firstBad >= 0 && p+int64(op.K) > int64(firstBad) && p <= int64(firstBad) {
 					wantPrefix := fc.content[p:firstBad]
@@ -457,12 +480,16 @@ func runFileInput(rep *Report, in FileInput, cfB, cfR *CaseFile) {
 				}
 				gotOrder := fc.loadsOf(firstRequests(fc.st.Reads))
 				if fmt.Sprint(gotOrder) != fmt.Sprint(wantOrder) {
-					fail("C20", "read-order", "blocks of a full sequential read are not first requested in depth-first link order", wantOrder, gotOrder)
+					sig := "read-order"
+					if strings.HasPrefix(in.Hand, "nosizes-") {
+						sig = "nosizes-read-order" // children without a declared size are opened (measured) before anything is read
+					}
+					fail("C20", sig, "blocks of a full sequential read are not first requested in depth-first link order", wantOrder, gotOrder)
 				}
 			}
 		}
 	}
-	if in.Mode == "faults" && firstBad >= 0 {
+	if in.Mode == "faults" && firstBad >= 0 && !emptyBad {
 		// the whole value: AsBytes needs every block, so it must report an error, never a (shortened) value -
 		// also when the storage's own error is io.ErrUnexpectedEOF, which a buffer-filling read may mistake for "done"
 		for _, sentinel := range []bool{false, true} {
@@ -496,7 +523,11 @@ func runFileInput(rep *Report, in FileInput, cfB, cfR *CaseFile) {
 			fc.st.ReadHook = nil
 		}
 	}
-	if cfR != nil && !strings.HasPrefix(in.Hand, "nosizes-") { // measuring children by opening them is outside the model: oracle only
+	if strings.HasPrefix(in.Hand, "nosizes-") {
+		// children measured by opening them: compared with the extended reader model (File/Unsized.v), bytes and statuses
+		cfR = cfUnsized
+	}
+	if cfR != nil {
 		fl := make([]string, len(in.Faults))
 		for i, f := range in.Faults {
 			fl[i] = fmt.Sprintf("(%d, %d)", f[0], f[1])
@@ -934,8 +965,12 @@ func runBuildCase(rep *Report, in FileInput, cf *CaseFile, fail func(prop, sig, 
 	}
 }
 
+var cfUnsized *CaseFile
+
 func scnFiles(rep *Report, rng *Rng, tier string, outdir string) {
 	cfB := NewCaseFile(rep, outdir, "cases_fbuild", "UV.Corr.Files", "mismatches_fbuild", 25)
+	cfUnsized = NewCaseFile(rep, outdir, "cases_ufread", "UV.Corr.Files", "mismatches_ufread", 40)
+	defer func() { cfUnsized = nil }()
 	cfRs := map[string]*CaseFile{}
 	for _, m := range []string{"history", "range", "order", "faults"} {
 		cfRs[m] = NewCaseFile(rep, outdir, "cases_fread_"+m, "UV.Corr.Files", "mismatches_fread_loads", 40)
@@ -943,6 +978,7 @@ func scnFiles(rep *Report, rng *Rng, tier string, outdir string) {
 	if tier == "search" {
 		cfB = nil
 		cfRs = map[string]*CaseFile{}
+		cfUnsized = nil
 	}
 	buildProps := []string{"C01", "C07", "C10", "C11"}
 	for _, p := range buildProps {
@@ -1099,12 +1135,109 @@ func scnFiles(rep *Report, rng *Rng, tier string, outdir string) {
 			addRead(in)
 		}
 	}
+	// hand-assembled DAGs with truthful sizes (packed BlockSizes, empty leaves between others, more BlockSizes than
+	// links, identity-hash links): histories, full reads through every opener, ranges, every single unavailable block
+	for hi, hand := range sizedHands {
+		_, content := handFile(NewStore(), hand)
+		size := len(content)
+		base := FileInput{Hand: hand, Size: size}
+		fc, err := makeFile(base)
+		if err != nil {
+			continue
+		}
+		for h := 0; h < 4; h++ {
+			in := base
+			in.Mode, in.Opener = "history", openers3[(hi+h)%3]
+			for i, nops := 0, 3+rng.Intn(10); i < nops; i++ {
+				op := FOp{Reader: rng.Intn(2)}
+				if rng.Intn(5) < 2 {
+					op.Kind, op.Whence = "seek", rng.Intn(3)
+					op.Off = []int64{0, int64(rng.Intn(size + 1)), 7, 8, 16, 17, int64(size), int64(size + 2), -1}[rng.Intn(9)]
+					if op.Whence == io.SeekEnd {
+						op.Off -= int64(size)
+					}
+				} else {
+					op.Kind, op.K = "read", []int{1, 3, 7, 9, size + 2}[rng.Intn(5)]
+				}
+				in.Ops = append(in.Ops, op)
+			}
+			addRead(in)
+		}
+		for _, opn := range openers3 {
+			in := base
+			in.Mode, in.Opener = "order", opn
+			in.Ops = []FOp{{Kind: "read", K: size + 5}}
+			addRead(in)
+		}
+		for _, ab := range [][2]int{{0, 1}, {7, 8}, {6, 9}, {16, 17}, {size - 1, size}, {8, 16}} {
+			if ab[1] <= size {
+				in := base
+				in.Mode, in.Opener = "range", "lazy"
+				in.Ops = []FOp{{Kind: "seek", Off: int64(ab[0]), Whence: io.SeekStart}, {Kind: "read", K: ab[1] - ab[0]}}
+				addRead(in)
+			}
+		}
+		for i := 1; i < len(fc.order); i++ {
+			in := base
+			in.Mode, in.Opener = "faults", []string{"direct", "lazy"}[(hi+i)%2]
+			in.Faults = [][2]int{{i, 1 + i%2}}
+			k := []int{1, 3, size + 3}[i%3]
+			for got := 0; got < size+k; got += k {
+				in.Ops = append(in.Ops, FOp{Kind: "read", K: k})
+			}
+			in.Ops = append(in.Ops, FOp{Kind: "read", K: k})
+			addRead(in)
+		}
+		// preload with every single block unavailable must fail (C06)
+		for i := 1; i < len(fc.order); i++ {
+			fc.st.Unavailable = map[string]uint64{fc.order[i].Cid.KeyString(): 1}
+			o := guard(func() error { _, err := openFile(fc.st, fc.root, "preload"); return err })
+			if o.Class == "ok" {
+				rep.Fail("C06", "files/hand-preload-partial", "preload reification returned a node although a block of the file is unavailable", base, "error", fmt.Sprintf("ok (block %d unavailable)", i))
+			} else if o.Class == "panic" {
+				rep.Fail("C13", "files/hand-preload-panic", "preload reification panicked on an unavailable block", base, "error", "panic")
+			}
+		}
+		fc.st.Unavailable = map[string]uint64{}
+	}
+	// storage that fails once per block and recovers: readers asked again (every single block; several at once)
+	for si, s := range []fspec{{w: 2, k: 3, size: 40}, {w: 3, k: 2, size: 37}, {w: 2, k: 1, size: 9}, {w: 4, k: 5, size: 100}} {
+		base := FileInput{Width: s.w, Chunker: fmt.Sprintf("size-%d", s.k), Size: s.size, Seed: uint64(40 + si), Mode: "transient"}
+		fc, err := makeFile(base)
+		if err != nil {
+			continue
+		}
+		nb := len(fc.order)
+		for i := 1; i < nb; i++ {
+			if tier != "thorough" && nb > 20 && i%3 != si%3 {
+				continue
+			}
+			in := base
+			in.Opener = []string{"direct", "lazy", "nodereifier"}[(i+si)%3]
+			in.Faults = [][2]int{{i, i}}
+			if i%5 == 0 && i+2 < nb {
+				in.Faults = append(in.Faults, [2]int{i + 2, 1})
+			}
+			off := rng.Intn(s.size)
+			k := []int{1, s.k, s.k + 1, s.size + 3}[i%4]
+			in.Ops = []FOp{{Kind: "seek", Off: int64(off), Whence: io.SeekStart}}
+			for got := off; got < s.size+k; got += k {
+				in.Ops = append(in.Ops, FOp{Kind: "read", K: k})
+			}
+			runTransient(rep, in)
+			key, _ := json.Marshal(in)
+			for _, p := range []string{"C12", "C01", "C04"} {
+				rep.Count(p, string(key), true, in)
+				rep.Dist(p, "transient-faults")
+			}
+		}
+	}
 	// Seek/Read histories over roots whose children have to be opened to be measured
 	nHand := 12
 	if tier == "thorough" {
 		nHand = 200
 	}
-	for hi, hand := range []string{"nosizes-tree-1", "nosizes-tree-2"} {
+	for hi, hand := range []string{"nosizes-tree-1", "nosizes-tree-2", "nosizes-mixed"} {
 		_, content := handFile(NewStore(), hand)
 		size := len(content)
 		for h := 0; h < nHand; h++ {
@@ -1128,6 +1261,45 @@ func scnFiles(rep *Report, rng *Rng, tier string, outdir string) {
 			addRead(in)
 		}
 	}
+	// ... full sequential reads (C20)
+	for hi, hand := range []string{"nosizes-tree-1", "nosizes-tree-2", "nosizes-mixed"} {
+		_, content := handFile(NewStore(), hand)
+		for v := 0; v < 2; v++ {
+			addRead(FileInput{Hand: hand, Mode: "order", Opener: []string{"direct", "lazy"}[(hi+v)%2], Size: len(content),
+				Ops: []FOp{{Kind: "read", K: len(content) + 5}, {Reader: 1, Kind: "read", K: len(content) + 5}}})
+		}
+	}
+	// ... ranges through the lazy view (C05)
+	for _, hand := range []string{"nosizes-tree-1", "nosizes-tree-2"} {
+		_, content := handFile(NewStore(), hand)
+		for _, ab := range [][2]int{{0, 1}, {0, 9}, {9, 12}, {len(content) - 1, len(content)}, {10, 40}} {
+			if ab[1] > len(content) || ab[0] >= ab[1] {
+				continue
+			}
+			addRead(FileInput{Hand: hand, Mode: "range", Opener: "lazy", Size: len(content),
+				Ops: []FOp{{Kind: "seek", Off: int64(ab[0]), Whence: io.SeekStart}, {Kind: "read", K: ab[1] - ab[0]}}})
+		}
+	}
+	// ... and with every single block below the root unavailable, read sequentially (then once more after the error)
+	for hi, hand := range []string{"nosizes-tree-1", "nosizes-tree-2"} {
+		base := FileInput{Hand: hand, Mode: "faults"}
+		fc, err := makeFile(base)
+		if err != nil {
+			continue
+		}
+		base.Size = len(fc.content)
+		for i := 1; i < len(fc.order); i++ {
+			in := base
+			in.Opener = []string{"direct", "lazy"}[(hi+i)%2]
+			in.Faults = [][2]int{{i, 1 + i%2}}
+			k := []int{1, 9, 10, base.Size + 3}[i%4]
+			for got := 0; got < base.Size+k; got += k {
+				in.Ops = append(in.Ops, FOp{Kind: "read", K: k})
+			}
+			in.Ops = append(in.Ops, FOp{Kind: "read", K: k}, FOp{Kind: "seek", Off: 0, Whence: io.SeekEnd}, FOp{Kind: "seek", Off: 2, Whence: io.SeekStart}, FOp{Kind: "read", K: 5})
+			addRead(in)
+		}
+	}
 	nHist := 6
 	if tier == "thorough" {
 		nHist = 300
@@ -1141,6 +1313,9 @@ func scnFiles(rep *Report, rng *Rng, tier string, outdir string) {
 			base.Chunker = s.ref.Chunker
 		}
 		offs := func() int64 {
+			if rng.Intn(12) == 0 {
+				return math.MinInt64 // the position is never negative, so adding this cannot wrap
+			}
 			switch rng.Intn(7) {
 			case 0:
 				return -int64(1 + rng.Intn(4))
@@ -1172,7 +1347,7 @@ func scnFiles(rep *Report, rng *Rng, tier string, outdir string) {
 					op.Kind = "seek"
 					op.Whence = rng.Intn(3)
 					op.Off = offs()
-					if op.Whence == io.SeekEnd {
+					if op.Whence == io.SeekEnd && op.Off != math.MinInt64 {
 						op.Off -= int64(s.size)
 					}
 				} else {
@@ -1286,6 +1461,9 @@ func scnFiles(rep *Report, rng *Rng, tier string, outdir string) {
 	for _, c := range cfRs {
 		c.Flush()
 	}
+	if cfUnsized != nil {
+		cfUnsized.Flush()
+	}
 }
 
 func cfBFlush(c *CaseFile) {
@@ -1321,6 +1499,32 @@ func handFile(st *Store, kind string) (cid.Cid, []byte) {
 		content = append(content, c...)
 		kids = append(kids, st.PutRaw(c))
 		bsz = append(bsz, uint64(len(c)))
+	}
+	if c, content, ok := sizedHandFile(st, kind); ok {
+		return c, content
+	}
+	if kind == "nosizes-mixed" {
+		// root without sizes over a first child that declares its FileSize (measuring it needs only its own block)
+		// and a second child that does not (measuring it opens its leaves)
+		next := 0
+		mk := func(n int, withFileSize bool) (cid.Cid, []byte) {
+			var kids []cid.Cid
+			var content []byte
+			for i := 0; i < n; i++ {
+				k, c := buildNoSizesTree(st, 0, 0, &next)
+				kids = append(kids, k)
+				content = append(content, c...)
+			}
+			var fsz *uint64
+			if withFileSize {
+				v := uint64(len(content))
+				fsz = &v
+			}
+			return storeUnsizedNode(st, kids, fsz), content
+		}
+		k1, c1 := mk(2, true)
+		k2, c2 := mk(2, false)
+		return storeUnsizedNode(st, []cid.Cid{k1, k2}, nil), append(c1, c2...)
 	}
 	if kind == "nosizes-tree-1" || kind == "nosizes-tree-2" {
 		// interior nodes without BlockSizes / FileSize over dag-pb leaves: sizes are measured by opening the children
@@ -1358,4 +1562,200 @@ func handFile(st *Store, kind string) (cid.Cid, []byte) {
 	root, err := st.PutPB(rootN, false)
 	must(err)
 	return root, content
+}
+
+// storeUnsizedNode stores a file node over the given children with no BlockSizes (and a FileSize only when given)
+func storeUnsizedNode(st *Store, kids []cid.Cid, fileSize *uint64) cid.Cid {
+	n, err := qp.BuildMap(dagpb.Type.PBNode, -1, func(ma datamodel.MapAssembler) {
+		qp.MapEntry(ma, "Links", qp.List(int64(len(kids)), func(la datamodel.ListAssembler) {
+			for _, k := range kids {
+				k := k
+				qp.ListEntry(la, qp.Map(-1, func(ma datamodel.MapAssembler) {
+					qp.MapEntry(ma, "Hash", qp.Link(cidlink.Link{Cid: k}))
+					qp.MapEntry(ma, "Name", qp.String(""))
+					qp.MapEntry(ma, "Tsize", qp.Int(int64(len(st.Blocks[k.KeyString()]))))
+				}))
+			}
+		}))
+		qp.MapEntry(ma, "Data", qp.Bytes(ufsData(2, nil, false, fileSize, nil, nil, nil)))
+	})
+	must(err)
+	c, err := st.PutPB(n, false)
+	must(err)
+	return c
+}
+
+// runTransient: storage that fails the first request(s) for some blocks and serves them afterwards.  A reader that is
+// simply asked again after a load error must carry on with the bytes at its offset: every chunk a Read delivers is the
+// content at the position reached so far, and with enough retries the read ends at the true end (C12; C01 / C04: the
+// bytes streamed are the file's).  Oracle only: the model's faults are permanent.
+func runTransient(rep *Report, in FileInput) {
+	fail := func(prop, sig, what string, exp, got interface{}) { rep.Fail(prop, "files/"+sig, what, in, exp, got) }
+	fc, err := makeFile(in)
+	if err != nil {
+		fail("C01", "build-error", "building the file failed", nil, err.Error())
+		return
+	}
+	remaining := map[string]int{}
+	kinds := map[string]uint64{}
+	for _, f := range in.Faults {
+		if f[0] > 0 && f[0] < len(fc.order) {
+			k := fc.order[f[0]].Cid.KeyString()
+			remaining[k]++
+			kinds[k] = uint64(1 + f[1]%2)
+		}
+	}
+	fc.st.ReadHook = func(c cid.Cid) error {
+		if remaining[c.KeyString()] > 0 {
+			remaining[c.KeyString()]--
+			return FaultErr{kinds[c.KeyString()]}
+		}
+		return nil
+	}
+	var node datamodel.Node
+	if o := guard(func() error { var err error; node, err = openFile(fc.st, fc.root, in.Opener); return err }); o.Class != "ok" {
+		return // the opener itself met the failure (preloading views): nothing to retry on
+	}
+	l, ok := node.(lbn)
+	if !ok {
+		return
+	}
+	r, err := l.AsLargeBytes()
+	if err != nil {
+		return
+	}
+	pos := int64(0)
+	n := int64(len(fc.content))
+	for _, op := range in.Ops {
+		switch op.Kind {
+		case "seek":
+			var got int64
+			o := guard(func() error { var err error; got, err = r.Seek(op.Off, op.Whence); return err })
+			if o.Class == "ok" {
+				pos = got
+			} else if o.Class == "panic" {
+				fail("C13", "transient-seek-panic", "Seek panicked while storage was failing", "offset or error", "panic")
+				return
+			}
+		case "read":
+			errsInARow := 0
+			for tries := 0; tries < len(in.Faults)+3; tries++ {
+				got, o := readFull(r, op.K)
+				if o.Class == "panic" {
+					fail("C13", "transient-read-panic", "Read panicked while storage was failing", "bytes or error", "panic")
+					return
+				}
+				end := pos + int64(len(got))
+				if pos > n || end > n || !bytes.Equal(got, fc.content[pos:end]) {
+					for _, p := range []string{"C12", "C01", "C04"} {
+						fail(p, "transient-bytes", "bytes delivered by a reader that was asked again after a load error are not the content at its offset", fmt.Sprintf("content[%d:%d]", pos, end), fmt.Sprintf("%d bytes, equal prefix %d (retry %d)", len(got), commonPrefix(got, fc.content[min64(pos, n):]), tries))
+					}
+					return
+				}
+				pos = end
+				if o.Class == "ok" {
+					break
+				}
+				if o.Class == "eof" {
+					if pos != n {
+						for _, p := range []string{"C12", "C01", "C04"} {
+							fail(p, "transient-eof", "a reader asked again after a load error reported end-of-file before the end of the content", n, pos)
+						}
+						return
+					}
+					break
+				}
+				errsInARow++ // a load error: ask again
+			}
+		}
+	}
+}
+
+func min64(a, b int64) int64 {
+	if a < b {
+		return a
+	}
+	return b
+}
+
+// sizedHands: hand-assembled file DAGs with truthful sizes in shapes or encodings no builder here writes
+var sizedHands = []string{"pb-packed-sizes", "empty-middle-leaf", "pb-extra-blocksizes", "identity-raw-leaf", "identity-pb-leaves"}
+
+func sizedHandFile(st *Store, kind string) (cid.Cid, []byte, bool) {
+	pbLeaf := func(c []byte, identity bool) cid.Cid {
+		fs := uint64(len(c))
+		blk := encodePBRaw(nil, ufsData(2, c, true, &fs, nil, nil, nil), true)
+		if identity {
+			return st.PutIdentity(cid.DagProtobuf, blk)
+		}
+		return st.PutPBRaw(blk)
+	}
+	sizedNode := func(kids []cid.Cid, lens []uint64, packed bool, extra []uint64) cid.Cid {
+		total := uint64(0)
+		var rl []rawLink
+		for i, k := range kids {
+			total += lens[i]
+			nm, ts := "", uint64(len(st.Blocks[k.KeyString()]))
+			rl = append(rl, rawLink{Name: &nm, Tsize: &ts, Cid: k})
+		}
+		var d []byte
+		bs := append(append([]uint64{}, lens...), extra...)
+		if packed {
+			d = protowire.AppendVarint(protowire.AppendTag(nil, 1, protowire.VarintType), 2)
+			d = protowire.AppendVarint(protowire.AppendTag(d, 3, protowire.VarintType), total)
+			var run []byte
+			for _, v := range bs {
+				run = protowire.AppendVarint(run, v)
+			}
+			d = protowire.AppendBytes(protowire.AppendTag(d, 4, protowire.BytesType), run)
+		} else {
+			d = ufsData(2, nil, false, &total, bs, nil, nil)
+		}
+		return st.PutPBRaw(encodePBRaw(rl, d, true))
+	}
+	chunks := [][]byte{[]byte("hand-1;"), []byte("hand-two;"), []byte("3"), []byte("four-4-four")}
+	var content []byte
+	var kids []cid.Cid
+	var lens []uint64
+	switch kind {
+	case "pb-packed-sizes":
+		for _, c := range chunks {
+			kids, lens, content = append(kids, pbLeaf(c, false)), append(lens, uint64(len(c))), append(content, c...)
+		}
+		return sizedNode(kids, lens, true, nil), content, true
+	case "empty-middle-leaf":
+		for _, c := range [][]byte{[]byte("aaa"), {}, []byte("bbb"), {}} {
+			kids, lens, content = append(kids, st.PutRaw(c)), append(lens, uint64(len(c))), append(content, c...)
+		}
+		return sizedNode(kids, lens, false, nil), content, true
+	case "pb-extra-blocksizes":
+		for g := 0; g < 2; g++ {
+			var gk []cid.Cid
+			var gl []uint64
+			glen := uint64(0)
+			for _, c := range chunks[2*g : 2*g+2] {
+				gk, gl, content = append(gk, st.PutRaw(c)), append(gl, uint64(len(c))), append(content, c...)
+				glen += uint64(len(c))
+			}
+			kids, lens = append(kids, sizedNode(gk, gl, false, nil)), append(lens, glen)
+		}
+		return sizedNode(kids, lens, false, []uint64{0}), content, true // one BlockSizes entry more than links
+	case "identity-raw-leaf":
+		for i, c := range chunks {
+			var k cid.Cid
+			if i == 1 || i == 3 {
+				k = st.PutIdentity(cid.Raw, c)
+			} else {
+				k = st.PutRaw(c)
+			}
+			kids, lens, content = append(kids, k), append(lens, uint64(len(c))), append(content, c...)
+		}
+		return sizedNode(kids, lens, false, nil), content, true
+	case "identity-pb-leaves":
+		for i, c := range chunks {
+			kids, lens, content = append(kids, pbLeaf(c, i != 0)), append(lens, uint64(len(c))), append(content, c...)
+		}
+		return sizedNode(kids, lens, false, nil), content, true
+	}
+	return cid.Undef, nil, false
 }
